@@ -185,8 +185,11 @@ func SizeAlphabet(p refper.Params, isList bool) []int64 {
 		if ub >= 0 && ub <= 64 {
 			vs = append(vs, ub)
 		}
-		if hi > 64 {
-			hi = 64
+		// long lists: counts around 128 and 256 (a count above 127 needs the two-octet form when the upper bound is 64K
+		// or more; above 255 it no longer fits an octet)
+		vs = append(vs, 127, 128, 129, 255, 256, 300)
+		if hi > 300 {
+			hi = 300
 		}
 	} else {
 		vs = []int64{lb, lb + 1, 2, 3, 16, 17, 127, 128, 255, 256, ub - 1, ub, 16383}
